@@ -129,8 +129,15 @@ func (w *verifStreamWriter) Write(p []byte) (int, error) {
 func (w *verifStreamWriter) Size() uint32 { return uint32(len(w.buf)) }
 func (w *verifStreamWriter) Commit() error {
 	w.fl.pending[w.key] = w.buf
+	if verifKVYield {
+		verifYield()
+	}
 	return nil
 }
+
+// verifKVYield makes the family stand-in's commits scheduling points (harnesses that look at what
+// happens between a writer's Write and the end of a flush)
+var verifKVYield bool
 
 func (f *verifKVFamily) NewFlusher() kv.Flusher {
 	fl := &verifKVFlusher{fam: f, pending: map[uint32][]byte{}}
@@ -145,6 +152,9 @@ var verifCommitGate func() bool
 func (fl *verifKVFlusher) Commit() error {
 	if verifCommitGate != nil && !verifCommitGate() {
 		return nil
+	}
+	if verifKVYield {
+		verifYield()
 	}
 	for k, v := range fl.pending {
 		fl.fam.persisted[k] = append(fl.fam.persisted[k], v)
@@ -177,6 +187,11 @@ func verifFlush(withLookup, withCreate bool) {
 		_, _, _ = s.GetOrCreateValue(1, []byte("old"), create)
 		s.PrepareFlush()
 		verifAssert(s.Flush() == nil, "earlier flush")
+	}
+	if verifChoose("emptyFlushRoundBefore", 2) == 1 {
+		// a flush round in which this dictionary has nothing new
+		s.PrepareFlush()
+		verifAssert(s.Flush() == nil, "empty flush round")
 	}
 	id0, isNew, err := s.GetOrCreateValue(1, cpu, create)
 	verifAssert(err == nil && isNew, "first create")
@@ -211,6 +226,19 @@ func verifFlush(withLookup, withCreate bool) {
 	if withCreate {
 		id2, isNew2, _ := s.GetOrCreateValue(1, mem, create)
 		verifAssert(id2 == idMem && !isNew2, "after the flush the second name still has its ID and nothing is created")
+	}
+	// restart: a fresh store over what the family persisted knows every name under its ID
+	s2 := &indexKVStore{
+		family:      fam,
+		snapshot:    fam.GetSnapshot(),
+		mutable:     imap.NewIntMap[map[string]uint32](),
+		bucketCache: expirable.NewLRU[uint32, *model.TrieBucket](8, nil, 0),
+	}
+	idR, okR, _ := s2.GetValue(1, cpu)
+	verifAssert(okR && idR == id0, "after a restart the name is found under the ID it had")
+	if withCreate {
+		idR2, okR2, _ := s2.GetValue(1, mem)
+		verifAssert(okR2 && idR2 == idMem, "after a restart the second name is found under the ID it had")
 	}
 	verifReach("end")
 }
